@@ -108,19 +108,35 @@ def lemma_ident(rep, F, L):
         rep.lost("L-IDENT", "L-IDENT/optimise", "Rule::optimise")
         L.ok["L-IDENT"] = False
     else:
-        clears = [(n, p) for n, p in walk_with_path(ro.body) if call_is(n, "::clear")]
-        okc = len(clears) == 1
-        if okc:
-            n, p = clears[0]
-            ifs = [x for x in p if x.get("k") == "If" and show(x["cond"]) == "options.coalesce"]
-            okc = bool(ifs) and "self.detection.expression = optimiser::coalesce(self.detection.expression, self.detection.identifiers); <K, V, S, A>::clear(self.detection.identifiers)" in show(ifs[-1]["then"])
-        chk(rep, L, "L-IDENT", okc, "L-IDENT/clear-after-coalesce", ro.sp, "identifiers is cleared only right after coalesce inlined them", "")
-        import optsites
-        osites = optsites.sites(F) or []
-        for pas in ("shake", "rewrite", "matrix"):
-            mine = [s_ for s_ in osites if s_["pass"] == "optimiser::" + pas]
-            chk(rep, L, "L-IDENT", len(mine) == 1 and mine[0]["keys_kept"], "L-IDENT/keys-kept/" + pas, mine[0]["sp"] if mine else ro.sp, "%s maps (k, v) to (k, %s(v)): keys unchanged" % (pas, pas), mine[0]["detail"] if mine else "no such site")
-        chk(rep, L, "L-IDENT", len(osites) == 3 and all(s_["pass"] for s_ in osites), "L-IDENT/keys-kept/sites", ro.sp, "the identifier map is reassigned only by these three key-preserving maps", "; ".join(str(s_["detail"])[:60] for s_ in osites if not s_["pass"]))
+        import optflow
+        of = optflow.analyse(F)
+        if of["error"]:
+            rep.lost("L-IDENT", "L-IDENT/optimise-flow", "Rule::optimise inside the interpreted subset", of["error"][:200])
+            L.ok["L-IDENT"] = False
+        else:
+            runs = {sw: run for (sw, al), run in of["runs"].items() if not al}
+
+            def shape(term):
+                """(passes applied value-wise outermost first, cleared?, keys kept by all, anything else involved)"""
+                applied, kept, other = [], True, False
+                while isinstance(term, tuple) and term[0] == "mapv":
+                    applied.append(term[1])
+                    kept = kept and term[3]
+                    term = term[2]
+                cleared = isinstance(term, tuple) and term[0] == "cleared"
+                if cleared:
+                    term = term[1]
+                if term != ("init", "detection.identifiers"):
+                    other = True
+                return applied, cleared, kept, other
+            shapes = {sw: shape(run["fields"].get("detection.identifiers")) for sw, run in runs.items()}
+            # cleared exactly when coalesce ran (the condition no longer mentions identifiers then), and only as the first step
+            okc = all(sh[1] == sw[0] and not sh[3] for sw, sh in shapes.items()) and all(run["fields"].get("detection.expression") == optflow.expected(sw, False)["detection.expression"] for sw, run in runs.items())
+            chk(rep, L, "L-IDENT", okc, "L-IDENT/clear-after-coalesce", ro.sp, "identifiers is cleared exactly when (and right after) coalesce inlined them", "; ".join("%s:%s" % (sw, sh) for sw, sh in list(shapes.items())[:2] if sh[1] != sw[0] or sh[3]))
+            for i, pas in ((1, "shake"), (2, "rewrite"), (3, "matrix")):
+                okp = all(sh[2] and (("optimiser::" + pas in sh[0]) == sw[i]) for sw, sh in shapes.items())
+                chk(rep, L, "L-IDENT", okp, "L-IDENT/keys-kept/" + pas, ro.sp, "%s maps (k, v) to (k, %s(v)): keys unchanged" % (pas, pas), "")
+            chk(rep, L, "L-IDENT", not any(sh[3] for sh in shapes.values()), "L-IDENT/keys-kept/sites", ro.sp, "the identifier map is only ever cleared or mapped value-wise by these passes", "")
     # (iv) coalesce congruence
     co = F.fn("optimiser::coalesce")
     if co is None:
